@@ -487,7 +487,7 @@ class Harness:
     def __init__(self, name, entry, enforce=None, replace=(), loop_contracts=False, unwind=None,
                  method='LF', props=(), tier='quick', defines=(), flags=(), solver='', timeout=1500,
                  mem_gb=12, min_obligations=1, expect_classes=None, bounded=False, cover=False,
-                 known=None, dfcc=True, object_bits=None, replay=None, note='', split=False, only=None):
+                 known=None, dfcc=True, object_bits=None, replay=None, note='', split=False, only=None, jobs=16):
         self.__dict__.update(locals())
         del self.__dict__['self']
 
@@ -618,7 +618,7 @@ def build_and_check(unit, h, ctext, info, outdir, nocache=False, trace_prop=None
             cmd = cb[:-1] + [x for n in chunk for x in ('--property', n)] + [cb[-1]]
             with SOLVER_SLOTS:
                 return run(cmd, h.timeout, mem_gb=h.mem_gb)
-        with ThreadPoolExecutor(16) as ex:
+        with ThreadPoolExecutor(max(1, min(16, h.jobs))) as ex:
             outs = list(ex.map(one, chunks))
         for chunk, (rc, so, se, dt) in zip(chunks, outs):
             tot += dt
